@@ -171,7 +171,11 @@ func (d *Decoder) readTypedMap() (interface{}, error) {
 	}
 	mType, ok := d.typMap[typ]
 	if !ok {
-		return nil, newCodecError("ReadType", "no type map for %v", typ)
+		if d.skipping == 0 {
+			return nil, newCodecError("ReadType", "no type map for %v", typ)
+		}
+		// inside a value that is being skipped the map is consumed as an untyped one
+		mType = reflect.TypeOf(map[interface{}]interface{}{})
 	}
 
 	var mValue reflect.Value
